@@ -75,6 +75,14 @@ pub fn one_run(prop: &str, seed: u64, run: u64, keep_log: bool) -> RunResult {
         profile.max_steps = 420;
         profile.w = [80, 2, 4, 10, 2, 0, 0];
     }
+    if matches!(prop, "C05" | "C06" | "C07") && rng.chance(1, 10) {
+        // a long run of busy blocks a few seconds apart: the 15-minute window of the liquidation ratio then holds far
+        // more reserve snapshots (well over a hundred) than any short history
+        profile.long_busy = true;
+        profile.min_steps = 180;
+        profile.max_steps = 300;
+        profile.w = [62, 16, 4, 16, 2, 0, 0];
+    }
     let n_steps = rng.range(profile.min_steps as u64, profile.max_steps as u64) as usize;
     let mut res = RunResult { run, world: Some(cfg.clone()), ..Default::default() };
     let mut r = match Runner::new(&cfg, prop) {
